@@ -15,7 +15,7 @@ RULE = ('case = one regular source with axis triples (start, step, count) drawn 
         're-block or export. distinct = (axis classes, interval, start, route, follow-up); non-trivial = every case')
 ASSUMPTIONS = ['segyio reports the true geometry of the generated SEG-Y (O-SRC)']
 INTERVALS = [1, 7, 125, 250, 500, 1000, 1001, 1999, 2000, 3333, 4000, 4001, 12345, 32767, 32768, 65535]
-ZGY_DZ = [4.0, 2.0, 0.5, 0.25, 2.5, 0.125, 1.001, 3.333, 12.345, 0.001]
+ZGY_DZ = [4.0, 2.0, 0.5, 0.25, 2.5, 0.125, 1.001, 3.333, 12.345, 0.001, 10.0 / 3.0, 1.0 / 3.0, 0.0625 + 1e-7]
 ZGY_Z0 = [0.0, 100.0, -12.0, 8.5, -100.25, 0.001]
 T0S = [0, 1, -1, 100, -100, -32768, 32767]
 STEPS = [1, -1, 2, -2, 7, -7, 1000, -1000]
